@@ -1,7 +1,7 @@
 """Per-property decision procedures (DESIGN.md section 4)."""
 import json, os, subprocess, sys
 from .core import Run, Infra, VERIF, from_cps
-from .families import (Family, ApiFamily, BASES_ALL, BASES_MAIN, filler_letter, filler_digit, filler_nonascii, rng,
+from .families import (Family, ApiFamily, HostFamily, BASES_ALL, BASES_MAIN, filler_letter, filler_digit, filler_nonascii, rng,
                        SETTER_VALUES, ALL_SETTER_OPS, STARTS_ALL, sub_ops)
 from . import findings
 
@@ -323,3 +323,172 @@ def check_c13(run):
 def replay_file(prop, path):
     print("replay of %s: see 'mismatch' in the file; re-run the check to re-execute" % path)
     return 0
+
+
+# --------------------------------------------------------------------------------------------
+# composite-event checks (T-mode on TLC-enumerated inputs): C06, C15
+# --------------------------------------------------------------------------------------------
+def describe_event(ev, verdicts):
+    base = (" base=%r" % from_cps(ev["bs"][0])) if ev.get("bs") else ""
+    return "%s event input=%r%s: %s" % (ev.get("k"), from_cps(ev.get("in", [])), base, "; ".join(verdicts))
+
+
+def absorb_events(run, bad, family):
+    seen_known = run.__dict__.setdefault("_seen_known", set())
+    nviol = 0
+    for ev, verdicts in bad:
+        rest = []
+        for v in verdicts:
+            kf = findings.match(run.prop, {"what": "event", "event": ev, "verdict": v})
+            if kf:
+                if kf["id"] not in seen_known:
+                    seen_known.add(kf["id"])
+                    run.known.append("%s: %s [e.g. %s]" % (kf["id"], kf["summary"], describe_event(ev, [v])))
+            else:
+                rest.append(v)
+        if rest:
+            nviol += 1
+            if nviol <= 10:
+                run.violation(describe_event(ev, rest), {"property": run.prop, "kind": "event", "family": family, "event": ev, "verdicts": rest})
+    if nviol:
+        run.coverage_notes.setdefault("events_not_ok_by_family", {})[family] = nviol
+
+
+def run_event_families(run, fams, kind):
+    for fam in fams:
+        mod = fam.write(run.scratch)
+        bad, n = run.tlc_events(mod, fam.name, kind, cfg=mod + ".cfg")
+        if len(run.samples) < 12:
+            run.samples.append("[%s/%s] %d composite events recorded from the real code, e.g. inputs of family alphabet %r" % (fam.name, kind, n, fam.alphabet if isinstance(fam.alphabet, str) else "code points"))
+        absorb_events(run, bad, fam.name)
+        run.distinct += n
+
+
+def check_c06(run):
+    run.build_harness()
+    run.selftest()
+    q = run.tier == "quick"
+    # design: the laws are theorems of the specification (TLC, struct family x bases)
+    fams = c01_families(run)
+    design = [f for f in fams if f.name == "struct"][0]
+    design.maxlen = 3
+    design.invariants += ["LawSelf", "LawEmpty", "LawHash", "LawQuery", "LawScheme", "LawOpaqueBase"]
+    mod = design.write(run.scratch, emit=False)
+    run.tlc(mod, cfg=mod + ".cfg", timeout=600)
+    run.samples.append("[design] LawSelf/LawEmpty/LawHash/LawQuery/LawScheme/LawOpaqueBase are TLC invariants of the specification on family struct (N=3) x %d bases" % len(design.bases))
+    # binding: composite events on the real code for every (input, base) of the families
+    keep = ("struct", "file", "path", "creds") if q else ("struct", "file", "path", "creds", "host", "dotdeep", "class", "ws")
+    evf = [f for f in c01_families(run) if f.name in keep]
+    for f in evf:
+        if q and f.name in ("struct", "path"):
+            f.maxlen = 3
+        if not q and f.name == "struct":
+            f.maxlen = 4
+    run_event_families(run, evf, "law")
+    run.assumptions.append("the laws are evaluated by TLC on values observed from the real code only (no oracle involved), after TLC has established them as invariants of the specification")
+    return run.finish("model_checking", "for every (input, base) of the families: the three entry points, Href(u) against 7 bases, '', '#f', '?q' and 12 scheme-less "
+                      "references against u are executed on the real code and recorded as one composite event; TLC evaluates the C06 relations on the observed values; "
+                      "distinct = number of composite events (distinct (input, base) pairs)")
+
+
+def check_c15(run):
+    run.build_harness()
+    run.selftest()
+    q = run.tier == "quick"
+    for cfg in ("Diag_ok",):
+        out, st = run.tlc("Diag", cfg=cfg + ".cfg", timeout=300)
+    # the refutation with a call site that records a fatal event and carries on must be found (non-vacuity of the model)
+    p = subprocess.run(run.tlc_cmd("Diag", "Diag_bad.cfg"), cwd=run.scratch, capture_output=True, text=True, timeout=300)
+    if "Invariant Inv is violated" not in p.stdout:
+        raise Infra("Diag_bad.cfg: TLC no longer refutes the laws when a fatal event does not stop the run (vacuous model?)")
+    run.samples.append("[design] Diag.tla: C15 relations hold for all 1,555+ event sequences when a fatal event always stops; refuted (as expected) otherwise")
+    keep = ("struct", "host", "path", "file", "creds", "class", "ws", "brackets") if q else None
+    evf = [f for f in c01_families(run) if keep is None or f.name in keep]
+    for f in evf:
+        if q and f.name in ("struct",):
+            f.maxlen = 3
+    run_event_families(run, evf, "diag")
+    run.assumptions += ["weak reading: an error returned in fail-on-validation-error mode may itself be flagged non-fatal (it is the validation error); 'marked as a failure' is demanded of errors returned by the default and reporting parsers",
+                        "which validation errors the standard defines is not demanded (C15 is about internal consistency)"]
+    return run.finish("model_checking", "Diag.tla (choke-point design) model-checked for all event sequences up to length 5; for every (input, base) of the families the four "
+                      "configurations are run on the real code and recorded as one composite event, TLC evaluates the C15 relations on the observed outcomes")
+
+
+# --------------------------------------------------------------------------------------------
+# host sub-model: C07, C08, C09
+# --------------------------------------------------------------------------------------------
+def run_host_families(run, fams, keys="std"):
+    for fam in fams:
+        mod = fam.write(run.scratch)
+        S, M, st = run.tlc_replay(mod, fam.name, cfg=mod + ".cfg", replay_args=["--keys", keys, "--entries", "Parse"])
+        absorb(run, M, S, fam.name)
+
+
+def check_c07(run):
+    run.build_harness()
+    run.selftest()
+    q = run.tier == "quick"
+    D, L = filler_digit(run.seed), filler_letter(run.seed)
+    frames = [("http://", "/"), ("ws://", "/p"), ("file://", "/"), ("x://", "/")]
+    fams = [
+        HostFamily("v4text", alphabet="0178" + D + "xXaf" + L + ".-+", maxlen=4 if q else 5, frames=frames, invariants=["V4Inv"]),
+        HostFamily("v4deep", alphabet="01.", maxlen=9 if q else 11, frames=frames[:1] + frames[3:], invariants=["V4Inv"]),
+        HostFamily("v4radix", alphabet="0x8f.", maxlen=6 if q else 8, frames=frames[:1], invariants=["V4Inv"]),
+        HostFamily("v4range", alphabet="2569.", maxlen=6 if q else 7, frames=frames[:1], invariants=["V4Inv"]),
+    ]
+    run_host_families(run, fams, keys="std,ipv4")
+    if not q:
+        run_parse_families(run, [f for f in c01_families(run) if f.name in ("host", "ipv4deep")], keys="std,ipv4")
+    run.assumptions.append("ASCII host strings over the listed alphabets (digits, x, X, a-f, a filler letter, '.', '+', '-'); other characters through C01's class family")
+    return run.finish("model_checking", "every host string over the alphabet up to the bound, one TLC state each; TLC checks on the specification that a host is treated as IPv4 "
+                      "exactly when its last non-empty label is a number in the standard's sense (independent formulation), that accepted addresses are dotted-decimal "
+                      "fixed points with the expected value, and that opaque hosts are never reinterpreted; each string is replayed in http, ws, file and a non-special URL; "
+                      "distinct = distinct expected outcomes")
+
+
+def check_c08(run):
+    run.build_harness()
+    run.selftest()
+    q = run.tier == "quick"
+    frames = [("http://", "/"), ("x://", "/")]
+    fams = [
+        HostFamily("v6text", alphabet="01fF:.g5", maxlen=4 if q else 6, hpre="", hsuf="", frames=[("http://[", "]/"), ("x://[", "]/")], invariants=["V6TextInv"]),
+        HostFamily("v6deep", alphabet="1:.", maxlen=9 if q else 11, frames=[("http://[", "]/")], invariants=["V6TextInv"]),
+        HostFamily("v6zero", alphabet="0:1", maxlen=9 if q else 11, frames=[("http://[", "]/")], invariants=["V6TextInv"]),
+        HostFamily("v6val", mode="v6val", pieces=(0, 1, 0xabcd) if run.seed % 2 else (0, 0x10, 0xffff), frames=frames if not q else frames[:1],
+                   invariants=["V6ValInv", "V6SpellInv"]),
+    ]
+    run_host_families(run, fams, keys="std,ipv6")
+    run_parse_families(run, [f for f in c01_families(run) if f.name in ("brackets", "ipv6deep")], keys="std,ipv6")
+    run.assumptions.append("the 2^128 address values are covered by zero-run PATTERNS exhaustively (all 3^8 addresses over three piece values chosen by seed), not by value")
+    return run.finish("model_checking", "text side: every body up to the bound over {0 1 f F : . g 5} and two narrow-deep alphabets between one bracket pair, and every bracket "
+                      "arrangement over {[ ] : 1}; value side: all 3^8 addresses over three piece values with every alternative spelling (upper case, leading zeros, "
+                      "uncompressed, every legal '::' placement, dotted tail). TLC checks serializer = independent canonical text, parse(serialize(a)) = a, all spellings "
+                      "parse to a; every text replayed in a special and a non-special URL")
+
+
+C09_BASES = ["example.com", "a-b.c", "localhost", "x_y.z", "a.b.", "\u00fcber.de", "fa\u00df.de", "\uff21\uff22.com", "a\u00adb.c", "\u4e2d.cn",
+             "xn--bcher-kva.de", "\u0131.com", "a\u200db.c", "\u05d0.il", "1.2.3.4", "a.1", "\uff11.\uff12.3.4", "\u212a.com", "a\u3002b"]
+
+
+def check_c09(run):
+    run.build_harness()
+    run.selftest()
+    q = run.tier == "quick"
+    L = filler_letter(run.seed)
+    r = rng(run.seed, "c09")
+    # exact part: pure-ASCII hosts (ACE labels are skipped: IDNA taken as given)
+    fams = [
+        HostFamily("domtext", alphabet=L + L.upper() + "xn-._%412eZ", maxlen=4 if q else 5, frames=[("https://", "/"), ("file://", "/p")]),
+        HostFamily("domforbidden", alphabet=L + " ^|<>%257f\x7f\x00", maxlen=3 if q else 4, frames=[("https://", "/")]),
+    ]
+    run_host_families(run, fams, keys="std")
+    # relational part: spelling classes, including non-ASCII labels (no IDNA table needed for a relation)
+    bases = C09_BASES if not q else r.sample(C09_BASES, 10) + ["localhost"]
+    cls = HostFamily("domclass", mode="class", basehosts=bases, maxvar=2 if q else 3, frames=[("https://", "/"), ("file://", "/x")], invariants=["ClassInv"])
+    run_host_families(run, [cls], keys="std")
+    run.assumptions.append("IDNA mapping of non-ASCII / ACE labels is taken as given; for them only the relation (same result for every spelling) and the output shape are checked")
+    return run.finish("model_checking", "exact part: every pure-ASCII host over the alphabet (letters in both cases, digits, '-', '.', '_', '%41', '%2e', forbidden code points) replayed "
+                      "in https and file URLs against the specification; relational part: for every base host (ASCII, mapped, ignored, bidi, joiner, full-width, ACE) TLC generates all "
+                      "spellings with up to 2-3 varied code points (case flips, whole-code-point percent-encoding in either hex case) and the real hostnames of a class must coincide, "
+                      "be ASCII-only, lower case, forbidden-free, with localhost -> empty host for file")
